@@ -594,7 +594,7 @@ def build_table():
             f += [int(o.encrypt_then_mac), int(o.extended_master_secret), B(o.server_name)]
         return Tagged(o.version, tup(f))
     add('SessionTicketPayload', 'fmt_SessionTicketPayload', ('Tag', 2, stp_sel, [0, 1, 2]), M.SessionTicketPayload,
-        stp_build, stp_view, whole=True, reject=(ValueError,),
+        stp_build, stp_view, whole=True, reject=(ValueError,), ext_ctx='CtxCert',
         ders=lambda tv: [d for d, _ in untup(tv.v, {1: 7, 2: 10}[tv.t])[6]] if tv.t in (1, 2) else [])
 
     # ---- every extension class on its own, in every context
